@@ -48,7 +48,10 @@ IdFields(s) ==
 \* lattice size of a maptype-1 book: the largest v with v^dim <= entries
 RECURSIVE IPow(_, _)
 IPow(b, e) == IF e <= 0 THEN 1 ELSE b * IPow(b, e - 1)
-QuantVals1(entries, dim) == IF dim <= 0 THEN 0 ELSE CHOOSE v \in 0..entries : IPow(v, dim) <= entries /\ IPow(v + 1, dim) > entries
+\* b^e > lim without ever forming a number wider than the 32-bit integers of TLC (dimensions go up to 65535)
+RECURSIVE PowGt(_, _, _)
+PowGt(b, e, lim) == IF e <= 0 THEN 1 > lim ELSE IF b <= 1 THEN b > lim ELSE IF lim < 1 THEN TRUE ELSE PowGt(b, e - 1, lim \div b)
+QuantVals1(entries, dim) == IF dim <= 0 THEN 0 ELSE CHOOSE v \in 0..entries : ~PowGt(v, dim, entries) /\ PowGt(v + 1, dim, entries)
 
 RECURSIVE OrderedRuns(_, _, _)
 \* the ordered length encoding: for each length from `len` on, how many of the remaining entries have it
